@@ -414,6 +414,14 @@ static void ProcessFile(char const* pSrcName, int Index) {
                         printf("%s 0x%" PRIx64 "...", getmessage(Num_InfoMsgReading),
                                (unsigned long long)PReloc->Addr);
                     }
+                    /* the patch position comes from the file: it has to lie inside
+                       the record that was just read */
+
+                    if ((PReloc->Addr < PartRun->CodeStart)
+                        || (PReloc->Addr - PartRun->CodeStart + (RelocBitCnt(PReloc->Type) >> 3)
+                            > Len)) {
+                        FormatError(SrcName, getmessage(Num_FormatRelocInfoMissing));
+                    }
                     RelocVal  = GetValue(PReloc->Type, PReloc->Addr - PartRun->CodeStart);
                     NRelocVal = (PReloc->Type & RelocFlagSUB) ? RelocVal - Value
                                                               : RelocVal + Value;
